@@ -6,6 +6,7 @@ mod c10;
 mod c11;
 mod c12;
 mod c13;
+mod c16;
 mod codes;
 mod common;
 mod explore;
@@ -14,6 +15,7 @@ mod scen;
 mod sim;
 mod t1props;
 mod t2;
+mod x2;
 mod selftest;
 
 use common::*;
@@ -51,7 +53,20 @@ fn main() {
             let ctx = Ctx { prop: args[2].clone(), tier, seed, start: Instant::now() };
             let out = match args[2].as_str() {
                 "C01" => c01::run(&ctx),
-                "C02" => t1props::run_c02(&ctx),
+                "C02" => {
+                    // X1 on T1 with half of the budget, then the explicit-state sender model on T2
+                    std::env::set_var("VERIF_BUDGET_SCALE", "0.5");
+                    let mut o = t1props::run_c02(&ctx);
+                    std::env::remove_var("VERIF_BUDGET_SCALE");
+                    o.absorb(c16::run(&ctx, "C02"));
+                    o
+                }
+                "C16" => {
+                    let mut o = c16::run(&ctx, "C16");
+                    o.set("rule", serde_json::json!("X2 on T2: breadth-first search (iterative deepening, canonical-digest de-duplication) over the real client sending on two streams against a scripted peer; events: reserve_capacity / send_data / end / reset / drop / poll_capacity per stream, peer WINDOW_UPDATE (connection, stream), SETTINGS INITIAL_WINDOW_SIZE up and down, RST_STREAM, connection polls with open / budgeted / blocked writes. In every state capacity(s) <= wire credit of s minus queued, sum of capacities <= connection credit, poll_capacity never Ok(0); from every new state the epilogue checks that the largest capacity is usable without a further grant, that free connection capacity has reached streams asking for more, and that no capacity waiter was left unwoken"));
+                    o.assume("alphabet and size values listed under coverage.alphabet; histories deeper than the completed depth are not covered");
+                    o
+                }
                 "C04" => t1props::run_c04(&ctx),
                 "C06" => t1props::run_c06(&ctx),
                 "C17" => t1props::run_c17(&ctx),
@@ -78,6 +93,9 @@ fn main() {
             println!("replaying {} (property {}, rule {})", h, v["property"], v["rule"]);
             let violated = if h.starts_with("c11.") {
                 c11::replay(&v)
+            } else if h.starts_with("x2.sender") {
+                let prop: &'static str = if v["property"].as_str() == Some("C02") { "C02" } else { "C16" };
+                c16::replay(&v, prop).unwrap_or(false)
             } else if h.starts_with("c13.") {
                 c13::replay(&v)
             } else if h.starts_with("c08.") {
